@@ -329,6 +329,180 @@ func orderChoice(c *mc.Ctx, n int) []int {
 
 var refs = map[int]string{}
 
+// ---------------------------------------------------------------------------
+// repeatability across histories
+
+// "Writing the same font twice — in one process — produces byte-identical
+// output, reading the same bytes twice equal results": whatever the process did
+// in between.  Targets are all writers and readers; histories are all sequences
+// of <= 2 other operations, among them writes that fail part-way in every
+// format and reads that fail.
+type histOp struct {
+	name string
+	run  func() string
+}
+
+type limitWriter struct{ calls, failCall int }
+
+func (w *limitWriter) Write(p []byte) (int, error) {
+	w.calls++
+	if w.calls > w.failCall {
+		return 0, fmt.Errorf("injected write fault")
+	}
+	return len(p), nil
+}
+
+func histTargets() []histOp {
+	var ops []histOp
+	for _, format := range corpus.Formats {
+		format := format
+		ops = append(ops, histOp{"Font.Write(" + corpus.FormatName(format) + ")", func() string {
+			var b bytes.Buffer
+			err := corpus.SampleFont().Write(&b, &type1.WriterOptions{Format: format})
+			return fmt.Sprintf("%x err=%v", b.Bytes(), err)
+		}})
+	}
+	ops = append(ops,
+		histOp{"Font.Write(default options)", func() string {
+			var b bytes.Buffer
+			err := corpus.SampleFont().Write(&b, nil)
+			return fmt.Sprintf("%x err=%v", b.Bytes(), err)
+		}},
+		histOp{"Font.WritePDF", func() string {
+			var b bytes.Buffer
+			l1, l2, err := corpus.SampleFont().WritePDF(&b)
+			return fmt.Sprintf("%x %d %d err=%v", b.Bytes(), l1, l2, err)
+		}},
+		histOp{"Metrics.Write", func() string {
+			var b bytes.Buffer
+			m := corpus.SampleMetrics()
+			m.Glyphs["f"].Ligatures = map[string]string{"i": "fi"}
+			err := m.Write(&b)
+			return fmt.Sprintf("%x err=%v", b.Bytes(), err)
+		}},
+		histOp{"afm.Read", func() string { return observe.Run("afm", bytes.NewReader(corpus.AFMs()[1].Data)).Obs }},
+		histOp{"ReadCMap", func() string { return observe.Run("cmap", bytes.NewReader(corpus.CMaps()[0].Data)).Obs }},
+		histOp{"pfb decoding", func() string { return observe.Run("pfb", bytes.NewReader(corpus.PFBs()[0].Data)).Obs }},
+	)
+	for _, in := range corpus.Fonts() {
+		in := in
+		ops = append(ops, histOp{"type1.Read(" + in.Name + ")", func() string { return observe.Run("font", bytes.NewReader(in.Data)).Obs }})
+	}
+	return ops
+}
+
+func histHistory() []histOp {
+	var ops []histOp
+	other := func() *type1.Font {
+		f := fontWith(3)
+		f.FontName, f.FullName, f.Notice = "Other", "Other Font With A Longer Name", strings.Repeat("notice ", 40)
+		return f
+	}
+	for _, format := range corpus.Formats {
+		format := format
+		for _, k := range []int{0, 1, 2, 3, 5, 8, 20} {
+			k := k
+			ops = append(ops, histOp{fmt.Sprintf("Font.Write(%s) failing at write call %d", corpus.FormatName(format), k+1), func() string {
+				other().Write(&limitWriter{failCall: k}, &type1.WriterOptions{Format: format})
+				return ""
+			}})
+		}
+		ops = append(ops, histOp{"Font.Write(" + corpus.FormatName(format) + ") of another font", func() string {
+			other().Write(&bytes.Buffer{}, &type1.WriterOptions{Format: format})
+			return ""
+		}})
+	}
+	for _, k := range []int{0, 1, 4, 15} {
+		k := k
+		ops = append(ops,
+			histOp{fmt.Sprintf("Font.WritePDF failing at write call %d", k+1), func() string { other().WritePDF(&limitWriter{failCall: k}); return "" }},
+			histOp{fmt.Sprintf("Metrics.Write failing at write call %d", k+1), func() string { metricsWith(3, 5).Write(&limitWriter{failCall: k}); return "" }},
+		)
+	}
+	ops = append(ops,
+		histOp{"Font.Write of a font with a glyph name that cannot be written", func() string {
+			f := other()
+			f.Glyphs["bad name ("] = &type1.Glyph{WidthX: 100}
+			f.Write(&bytes.Buffer{}, &type1.WriterOptions{Format: type1.FormatPFB})
+			return ""
+		}},
+		histOp{"type1.Read of a truncated font", func() string {
+			d := corpus.Fonts()[1].Data
+			type1.Read(bytes.NewReader(d[:len(d)/2]))
+			return ""
+		}},
+		histOp{"type1.Read of another font", func() string {
+			t := corpus.FontsT1gen()
+			type1.Read(bytes.NewReader(t[len(t)/2].Data))
+			return ""
+		}},
+		histOp{"ReadCMap of a broken file", func() string {
+			d := corpus.CMaps()[1].Data
+			postscript.ReadCMap(bytes.NewReader(d[:len(d)*2/3]))
+			return ""
+		}},
+		histOp{"afm.Read of another file", func() string { afm.Read(bytes.NewReader(corpus.AFMs()[2].Data)); return "" }},
+		histOp{"a program that fails inside eexec", func() string {
+			intp := postscript.NewInterpreter()
+			intp.MaxOps = 500
+			intp.Execute(bytes.NewReader(corpus.Programs()[0].Data))
+			intp.ExecuteString("currentfile eexec 1 (a) add")
+			return ""
+		}},
+	)
+	return ops
+}
+
+func historiesFamily(budget time.Duration) mc.Family {
+	targets, hist := histTargets(), histHistory()
+	nh := len(hist)
+	nseq := 1 + nh + nh*nh
+	var refs []string
+	return mc.Family{
+		Name: "repeatability-across-histories", Items: len(targets) * (1 + nh), Budget: budget,
+		Rule: fmt.Sprintf("%d target operations (Font.Write in 4 formats and with default options, WritePDF, Metrics.Write, afm.Read, ReadCMap, PFB decoding, type1.Read of 4 containers) x every history of 0..2 operations out of %d (writes of another font in every format that fail at write call 1, 2, 3, 4, 6, 9, 21 or succeed, WritePDF and Metrics.Write failing at 4 points, a writer error, reads of other / truncated / broken files, a program failing inside eexec); item = (target, first history operation), choice = second; the target's output after the history must be byte-identical to its output at process start (%d histories per target); built with the deterministic LIFO Pool of the sync shim; non-trivial = non-empty history", len(targets), nh, nseq),
+		Body: func(c *mc.Ctx, item int) mc.Verdict {
+			zzverifrt.OrderHook = nil
+			if refs == nil {
+				for _, t := range targets {
+					refs = append(refs, t.run())
+				}
+			}
+			ti, first := item%len(targets), item/len(targets)
+			var seq []int
+			if first > 0 {
+				seq = append(seq, first-1)
+				if k := c.Choose(nh + 1); k > 0 {
+					seq = append(seq, k-1)
+				}
+			}
+			var names []string
+			for _, h := range seq {
+				hist[h].run()
+				names = append(names, hist[h].name)
+			}
+			got := targets[ti].run()
+			c.Step()
+			if got != refs[ti] {
+				n := 0
+				for n < len(got) && n < len(refs[ti]) && got[n] == refs[ti][n] {
+					n++
+				}
+				lo := max(0, n-40)
+				v := mc.Fail("C17:history-dependent:"+targets[ti].name, fmt.Sprintf("%s gives a different result after [%s] than at process start: first difference at byte %d: %q vs %q", targets[ti].name, strings.Join(names, " ; "), n, clip(got[lo:]), clip(refs[ti][lo:])))
+				v.Render = targets[ti].name + " after " + strings.Join(names, " ; ")
+				return v
+			}
+			v := mc.Pass(targets[ti].name, len(seq) > 0)
+			if c.Render() {
+				v.Render = targets[ti].name + " after [" + strings.Join(names, " ; ") + "] → identical"
+			}
+			return v
+		},
+		Describe: func(i int) string { return targets[i%len(targets)].name },
+	}
+}
+
 func main() {
 	ws := workloads()
 	mc.Main(mc.Program{
@@ -347,7 +521,7 @@ func main() {
 				dev = 4
 			}
 			sites, _ := os.ReadFile("build/gen-c17-sites.json")
-			return []mc.Family{{
+			return []mc.Family{historiesFamily(budget), {
 				Name: "map-order-permutations", Items: len(ws), MaxDev: dev, Budget: budget,
 				Rule: fmt.Sprintf("%d workloads (Font.Write x 4 formats, WritePDF, font queries, write+read for 1..4 glyphs; Metrics.Write with 1..3 ligatures x 1,3,5 glyphs, metrics queries, write+read; ReadCMap with 1..3 CMaps per file; type1.Read of 4 containers; a dictionary-copy program) x every assignment of iteration orders to the map-iteration sites met, with <= %d sites deviating from sorted order (all n! orders for n<=4, rotations+adjacent swaps beyond); non-trivial = at least one site iterated in a non-sorted order; instrumented sites: %s", len(ws), dev, strings.Join(strings.Fields(string(sites)), "")),
 				Body: func(c *mc.Ctx, item int) mc.Verdict {
